@@ -127,9 +127,9 @@ func (e *Engine) verifyFunc(fn *ssa.Function, ct *Contract, prop string) *Run {
 	r.curRets = nil
 	// every callsite/send clause must have been attached to at least one instruction
 	for _, ss := range ct.Sites {
-		key := r.name + "|" + ss.Callee + "|" + fmt.Sprint(ss.Ordinal) + "|" + fmt.Sprint(ss.IsSend)
+		key := r.name + "|" + ss.Callee + "|" + fmt.Sprint(ss.Ordinal) + ss.ValueOf + "|" + fmt.Sprint(ss.IsSend)
 		if !r.sitesHit[key] {
-			r.toolErr("%s: callsite/send clause for %q #%d is attached to no instruction", r.name, ss.Callee, ss.Ordinal)
+			r.toolErr("%s: callsite/send clause for %q #%d%s is attached to no instruction", r.name, ss.Callee, ss.Ordinal, ss.ValueOf)
 		}
 	}
 	return r
